@@ -264,6 +264,10 @@ func (i *interpreter) decodeYamlNode(fr *frame, n *value, depth int) (value, str
 func init() {
 	externals["(*gopkg.in/yaml.v3.Node).Decode"] = func(fr *frame, a []value) value {
 		n := a[0].(*value)
+		if n == nil {
+			// the real method dereferences its receiver
+			panic(targetPanic{iface{t: types.Typ[types.String], v: "runtime error: invalid memory address or nil pointer dereference"}})
+		}
 		v, err := fr.i.decodeYamlNode(fr, n, 0)
 		if err != "" {
 			return fr.i.mkError(fr, err)
